@@ -32,14 +32,15 @@ TIERS = {
     "C15": {"quick": dict(runs=[dict(fam="conc", iters=150, g=8, procs=4, race=True, shards=8),
                                 dict(fam="conc", iters=30, g=64, procs=16, race=True, shards=8),
                                 dict(fam="own", iters=150, g=8, procs=2, shards=8)],
-                          mc=[("MCLazyPool", "MCLazyPool_conc2.cfg")]),
+                          mc=[("MCLazyPool", "MCLazyPool_conc2.cfg"), ("MCLazyPool", "MCLazyPool_refine.cfg")], tlaps=True),
             "thorough": dict(runs=[dict(fam="conc", iters=3000, g=8, procs=16, race=True, shards=16),
                                    dict(fam="conc", iters=1500, g=64, procs=16, race=True, shards=16),
                                    dict(fam="conc", iters=3000, g=2, procs=1, race=True, shards=16),
                                    dict(fam="conc", iters=3000, g=16, procs=2, race=True, shards=16),
                                    dict(fam="own", iters=3000, g=8, procs=16, shards=16),
                                    dict(fam="own", iters=1000, g=64, procs=2, shards=16)],
-                             mc=[("MCLazyPool", "MCLazyPool_conc2.cfg"), ("MCLazyPool", "MCLazyPool_conc3.cfg"), ("MCLazyPool", "MCLazyPool_conc3big.cfg")])},
+                             mc=[("MCLazyPool", "MCLazyPool_conc2.cfg"), ("MCLazyPool", "MCLazyPool_conc3.cfg"), ("MCLazyPool", "MCLazyPool_conc3big.cfg"),
+                                 ("MCLazyPool", "MCLazyPool_refine.cfg")], tlaps=True)},
 }
 
 RULES = {
@@ -229,6 +230,12 @@ def check(prop, tier, seed, replay_path=None, selftest=False, keep=False):
         for m in mcs:
             V.log("TLC %s/%s: %d distinct states, %d transitions, %.0fs" % (m["module"], m["cfg"], m["states"], m["transitions"], m["seconds"]))
         expected = [tlc_expect_violation(scratch, m, c, inv) for m, c, inv in cfg.get("expect_violation", [])]
+        tlaps = None
+        if cfg.get("tlaps"):
+            # LazyPool refines the ownership protocol (TLC, MCLazyPool_refine.cfg: property AbsSpec); the protocol is safe for any number of
+            # goroutines and objects (TLAPS)
+            tlaps = V.tlaps_prove(scratch, "OwnershipProof", ["Ownership.tla"],
+                                  "Spec => [](Disjoint /\\ NotPooled /\\ Conserved) for every G in Nat and every set of objects")
         for r in cfg["runs"]:
             run_family(prop, scratch, r, seed, verdicts, stats)
         if cfg.get("defs"):
@@ -243,7 +250,7 @@ def check(prop, tier, seed, replay_path=None, selftest=False, keep=False):
             "rule": RULES[prop], "samples": stats["samples"], "exhaustive": False,
             "pool_reuses_observed": stats.get("reuse", 0), "tlc_generated_def_scripts": stats.get("def_scripts", 0),
             "race_detector_runs": stats.get("race_runs", 0),
-            "expected_violation_configs": expected,
+            "expected_violation_configs": expected, "tlaps": tlaps,
             "explanation": "TLC model checking: " + "; ".join("%s/%s %d states %d transitions" % (m["module"], m["cfg"], m["states"], m["transitions"]) for m in mcs)
                            + ". Every recorded event judged by TraceLazy against the reference parse of the handle's own input.",
             "known_findings_fired": sorted(verdicts.known_hits),
